@@ -12,7 +12,9 @@ PROP = dict(
                     "parser::read with one parser object used for several reads.  Exploration, not proof."),
         level_note=("trusts the stack model of open sections and the tree serialisers in harness/c08_parse.c / c08_cxx.cpp, gcc ASan/UBSan/LSan "
                     "(LSan scans conservatively; non-adjacent stray writes are not seen)"),
-        legs=[dict(name="c08_parse", memcheck=1500, src=["c08_parse.c", "c08_gen.c"], libs=["mptcore"], batch=256, lsan=True,
+        legs=[dict(name="c08_fuzz", kind="fuzz", src=["c08_fuzz.c", "c08_gen.c"], libs=["mptcore"], runs={"thorough": 150000}, max_len=1500,
+               corpus="corpus/c08", floors={"fuzz:documents": 1000000, "mpt_parse_config": 500000}),
+          dict(name="c08_parse", memcheck=1500, src=["c08_parse.c", "c08_gen.c"], libs=["mptcore"], batch=256, lsan=True,
                    floors={"mpt_parse_config": 200000, "mpt_parse_node": 120000, "direct-loop": 40000,
                            "family:prefix": 60000, "family:enclosed": 25000, "family:enclosed-same-char": 10000,
                            "family:separated": 30000, "family:options-only": 20000,
